@@ -78,6 +78,69 @@ def replay_mono(h, q):
     return out
 
 
+def judge_mono(h, real):
+    """MonoTimer: the property decides, not the model -> (violation | None, divergence | None).
+    Between starts/restarts elapsed never decreases and expired never reverts, whatever the clock does; and as long as
+    the clock has not stepped backwards since the timer was (re)started with start(), the reports are exact:
+    elapsed = now - start, remaining = stop - now, expired iff now >= stop.  After a backward step the exact values
+    are the implementation's choice: a difference from the model is recorded as a divergence, not an alarm."""
+    if not isinstance(real, list):
+        return str(real), None
+    start = lastw = h[0]["w"]
+    dur = h[0]["a"]
+    stop = start + dur
+    stepped = False
+    prev_el, was_exp = None, False
+    div = None
+    for k in range(1, len(h)):
+        e = h[k]
+        if e["op"] == "start":
+            start = lastw = e["w"]
+            dur = dur if e["a"] == NONE else e["a"]
+            stop = start + dur
+            stepped, prev_el, was_exp = False, None, False
+        elif e["op"] == "restart":
+            nd = dur if e["a"] == NONE else e["a"]
+            start, stop, dur = stop, stop + nd, nd
+            prev_el, was_exp = None, False
+        else:
+            r = real[k] if k < len(real) else None
+            if not isinstance(r, dict):
+                return "no report after op %d" % k, None
+            w = e["w"]
+            if w < lastw:
+                stepped = True
+            lastw = w
+            if prev_el is not None and r["elapsed"] < prev_el:
+                return "elapsed decreased from %s to %s at op %d (clock %s)" % (prev_el, r["elapsed"], k, w), None
+            if was_exp and not r["expired"]:
+                return "expired reverted to False at op %d (clock %s)" % (k, w), None
+            if not stepped:
+                want = {"elapsed": w - start, "remaining": stop - w, "expired": w >= stop}
+                if r != want:
+                    return "report at op %d (clock %s, no backward step since start) is %s, exact value %s" % (k, w, r, want), None
+            elif r != e["obs"] and div is None:
+                div = "report at op %d after a backward clock step is %s, model %s" % (k, r, e["obs"])
+            prev_el, was_exp = r["elapsed"], r["expired"]
+    return None, div
+
+
+def replay_case(ctx, case):
+    h, qq = case["ops"], case.get("q", 0.25)
+    if "tyme" in (h[0].get("obs") or {}) if isinstance(h[0].get("obs"), dict) else False:
+        real = replay_tymer(h, qq)
+        return [] if real == [e["obs"] for e in h] else ["Tymer reports differ from the exact values: %s" % real]
+    try:
+        with core.watchdog():
+            real = replay_mono(h, qq)
+    except (Exception, core.Hang) as ex:
+        real = "raised %s: %s" % (type(ex).__name__, ex)
+    bad, div = judge_mono(h, real)
+    if div:
+        print("note:", div)
+    return [bad] if bad else []
+
+
 def run(ctx):
     q = ctx.quick
     tconst = {"Vals": {0, 1, 2, 3, 5}, "Durs": {0, 1, 2, 4}, "Ticks": {1, 2}, "MaxOps": 5 if q else 7}
@@ -88,6 +151,7 @@ def run(ctx):
         for v in r.violated:
             ctx.violation("model violates %s" % v, {"tlc_tail": r.out[-4000:]})
     n = 4000 if q else 120000
+    divergences = []
     for mod, consts, fn, depth in (
             ("TymerGen", dict(tconst, Vals={0, 2, 5}, Durs={0, 2}, MaxOps=2), replay_tymer, None),
             ("TymerGen", {"Vals": set(range(0, 13)), "Durs": {0, 1, 2, 4, 7}, "Ticks": {1, 2, 3}, "MaxOps": 10}, replay_tymer, 12),
@@ -104,18 +168,27 @@ def run(ctx):
         for i, h in enumerate(behs):
             qq = SCALES[(i + ctx.seed) % 4]
             try:
-                with core.watchdog(10.0):
+                with core.watchdog():
                     real = fn(h, qq)
             except (Exception, core.Hang) as ex:
                 real = "raised %s: %s" % (type(ex).__name__, ex)
             exp = [e["obs"] for e in h]
             ctx.traces += 1
             ctx.case((mod, str(h)), {"ops": h[:4]} if i % 997 == 1 else None)
-            if real != exp:
+            if fn is replay_mono:
+                bad, div = judge_mono(h, real)
+                if bad:
+                    ctx.violation("MonoTimer: %s" % bad, {"ops": h, "real": real, "q": qq})
+                elif div:
+                    divergences.append(div)
+            elif real != exp:
                 k = next((j for j in range(len(exp)) if not isinstance(real, list) or j >= len(real) or real[j] != exp[j]), 0)
                 ctx.violation("%s: report after op %d (%s) differs: code %s model %s" %
                               (mod[:-3], k, {x: h[k][x] for x in ("op", "a")}, real[k] if isinstance(real, list) and k < len(real) else real, exp[k]),
                               {"ops": h, "real": real, "q": qq})
-    return ctx.finish(rule="op sequences over small integer tyme/clock values x 4 exact time scales; distinct by op sequence",
+    if divergences:
+        ctx.note("%d MonoTimer runs differ from the model after a backward step without breaking C08 (first: %s)" %
+                 (len(divergences), divergences[0]))
+    return ctx.finish(extra={"model_divergences_not_violations": len(divergences)}, rule="op sequences over small integer tyme/clock values x 4 exact time scales; distinct by op sequence",
                       assumptions=["dyadic time scales only: one-ulp float rounding effects are numeric accuracy, outside the model",
                                    "each group of reads (elapsed, remaining, expired) is taken with the clock held still"])
